@@ -25,6 +25,7 @@ from ..cfg import CFG
 from ..core import AnalysisError, Mutant
 from ..exprnorm import same_expr
 from ..program import ClassIndex
+from ..exprnorm import has_code
 
 EXPLANATION = (
     "Literal table evaluation (complement, 1<->3 letter), sibling comparison of range guards over "
@@ -133,8 +134,8 @@ def run(ctx):
     # the mapper is built from the table over the ambiguous alphabet, into the ambiguous alphabet
     body = ast.unparse(nuc)
     ctx.ob("R1.complement-mapper", TYPES, "NucleotideSequence", "_compl_mapper = AlphabetMapper(_compl_alphabet_unamb, alphabet_amb)",
-           "for _symbol in alphabet_amb.get_symbols():" in body and "_compl_symbols.append(compl_symbol_dict[_symbol])" in body
-           and "AlphabetMapper(_compl_alphabet_unamb, alphabet_amb)" in body,
+           "for _symbol in alphabet_amb.get_symbols():" in body and has_code(nuc, "_compl_symbols.append(compl_symbol_dict[_symbol])")
+           and has_code(nuc, "AlphabetMapper(_compl_alphabet_unamb, alphabet_amb)"),
            "the complement mapper must map code i to the code of the complement of symbol i", nuc.lineno,
            nontrivial=False)
     d13 = const_eval(class_assign(prot, "_dict_1to3"))
@@ -145,7 +146,7 @@ def run(ctx):
            len(set(d13.values())) == len(d13), "two symbols share a three-letter code: the reverse table loses one",
            prot.lineno)
     ctx.ob("R1.letter-table-inverse", TYPES, "ProteinSequence._dict_3to1", "built by inverting _dict_1to3",
-           "for _key, _value in _dict_1to3.items():" in ast.unparse(prot) and "_dict_3to1[_value] = _key" in ast.unparse(prot),
+           "for _key, _value in _dict_1to3.items():" in ast.unparse(prot) and has_code(prot, "_dict_3to1[_value] = _key"),
            "the reverse table must be derived from the forward table", prot.lineno, nontrivial=False)
     # codon radix
     c = ctx.src(CODON)
@@ -389,8 +390,8 @@ def run(ctx):
     g2 = CFG(dec, lambda st: isinstance(st, ast.Raise))
     dom2 = g2.dominators()
     reads = [n for n in g2.nodes if n.ast is not None and n.kind == "stmt" and isinstance(n.ast, (ast.Assign, ast.AugAssign, ast.Expr))
-             and "alphabet[symbol_code]" in ast.unparse(n.ast)]
-    guards = [n for n in g2.nodes if n.kind == "test" and "symbol_code >= alphabet_length" in ast.unparse(n.ast.test)
+             and has_code(n.ast, "alphabet[symbol_code]")]
+    guards = [n for n in g2.nodes if n.kind == "test" and has_code(n.ast.test, "symbol_code >= alphabet_length")
               and any(isinstance(b, ast.Raise) for b in n.ast.body)]
     ctx.need(reads, "alphabet[symbol_code] read in decode_to_chars")
     ctx.ob("R4.decode-guarded", CODEC, "decode_to_chars", "symbol_code >= alphabet_length before alphabet[symbol_code]",
